@@ -27,4 +27,7 @@ for n in names:
                 print('   ', [l[:300] for l in o.stdout.splitlines() if l.startswith(('INCONCLUSIVE', 'NON-REPRODUCING'))][:3])
     finally:
         sh('git -C /repo checkout -- .')
-json.dump({f'{k[0]}|{k[1]}': v for k, v in results.items()}, open(os.path.join(HERE, 'out', 'seeded_results.json'), 'w'), indent=1)
+rp = os.path.join(HERE, 'seeded', 'results.json')
+allr = json.load(open(rp)) if os.path.exists(rp) else {}
+allr.update({f'{k[0]}|{k[1]}': v for k, v in results.items()})
+json.dump(allr, open(rp, 'w'), indent=1, sort_keys=True)
